@@ -68,11 +68,25 @@ inductive Op where
   | addOp (hh : Bytes) (i : UInt32)
   | matOp (hh : Bytes) (i : UInt32)
   | tx (t : Tx)
+  | isLoaded
+  | unload
+  | reload (s : State)
 
 def parseOp? (s : String) : Option Op :=
   match s.splitOn ":" with
   | ["a", d] => (hexToList? d).map .add
   | ["m", d] => (hexToList? d).map .mat
+  | ["ah", d] => match hexToList? d with
+    | some d => if d.length = 32 then some (.add d) else none
+    | none => none
+  | ["il"] => some .isLoaded
+  | ["ul"] => some .unload
+  | ["rn"] => some (.reload none)
+  | ["rl", flt, k, t, fl] =>
+    match parseFilterBits? flt, k.toNat?, u32? t, fl.toNat? with
+    | some bits, some k, some t, some fl =>
+      if k > maxFuncs ∨ fl ≥ 256 then none else some (.reload (some ⟨bits, UInt32.ofNat k, t, UInt8.ofNat fl⟩))
+    | _, _, _, _ => none
   | ["ao", hh, i] =>
     match hexToList? hh, u32? i with
     | some hh, some i => if hh.length = 32 then some (.addOp hh i) else none
@@ -98,6 +112,9 @@ def runOps : List Op → State → List Bool → Option (State × List Bool)
   | .addOp hh i :: ops, s, acc => (addOutPoint? murmur s hh i).bind (fun s' => runOps ops s' acc)
   | .matOp hh i :: ops, s, acc => (matchesOutPoint? murmur s hh i).bind (fun b => runOps ops s (b :: acc))
   | .tx t :: ops, s, acc => (matchTxAndUpdate? murmur s t).bind (fun r => runOps ops r.2 (r.1 :: acc))
+  | .isLoaded :: ops, s, acc => runOps ops s (s.isSome :: acc)
+  | .unload :: ops, _, acc => runOps ops none acc
+  | .reload s' :: ops, _, acc => runOps ops (load s') acc
 
 def bitsTok (b : Bytes) : String :=
   if b.length ≤ 128 then listToHexTok b
